@@ -166,19 +166,28 @@ def evloopAdd (f : Sched) (e : EvLoop) (h : Heap) : Except Err (EvLoop Ã— Bool Ã
 structure SockH where
   q : Cell := .null          -- handle->ctx_queue
   mtx : Cell := .null        -- handle->mtx
-  queue : NC := {}           -- *ctx_queue (no node pool)
+  queue : NC := {}           -- *ctx_queue (no node pool); every node carries one handed-over context
   deriving DecidableEq, Repr
 
-def SockH.owned (s : SockH) : Int := s.q.owned + s.mtx.owned + s.queue.owned
+/-- blocks owned by the handle: its two blocks, the queue nodes, and the contexts that were handed
+over and are still queued (one block and one descriptor each) -/
+def SockH.owned (s : SockH) : Int := s.q.owned + s.mtx.owned + s.queue.owned + s.queue.size
+def SockH.ownedFd (s : SockH) : Int := s.queue.size
 def SockH.show (s : SockH) : String := s!"{s.q.ch}{s.mtx.ch},n={s.queue.size}"
 
-/-- `muggle_socket_evloop_handle_destroy`: mutex block, then the queue (its nodes; the contexts
-still queued are the caller's) and the queue block -/
+/-- `muggle_socket_evloop_handle_destroy`: the contexts still in the hand-over queue are released
+(last reference: close the descriptor, `cb_free` the block) and dequeued; then the mutex block,
+the queue and the queue block -/
 def sockhDestroy (s : SockH) (h : Heap) : Except Err (SockH Ã— Heap) := do
+  let (queue, h) â† (if s.q â‰  .null then do
+      deref s.q
+      let n := s.queue.size
+      ncClear s.queue { h with mem := h.mem - n, fds := h.fds - n }
+    else pure (s.queue, h) : Except Err (NC Ã— Heap))
   let h â† free s.mtx h
   if s.q â‰  .null then do
     deref s.q
-    let (_, h) â† ncDestroy s.queue h
+    let (_, h) â† ncDestroy queue h
     let h â† free s.q h
     pure ({}, h)
   else pure ({}, h)
@@ -195,16 +204,20 @@ def sockhInit (f : Sched) (h : Heap) : Except Err (SockH Ã— Bool Ã— Heap) :=
       pure (s, false, h)
     else .ok ({ q := q, mtx := m }, true, h)
 
-/-- `muggle_socket_evloop_add_ctx` (fix C18-socket-evloop-add-ctx-report: returns whether the
-context was queued): one queue node, then the wake-up -/
+/-- the caller creates a context (one block, one descriptor â€” the caller's own acquisitions, not
+subject to the schedule) and hands it over with `muggle_socket_evloop_add_ctx`: one queue node,
+then the wake-up.  When the node cannot be allocated the call says so and the context still belongs
+to the caller, who releases it. -/
 def sockhAddCtx (f : Sched) (s : SockH) (h : Heap) : Except Err (SockH Ã— Bool Ã— Heap) :=
   match deref s.q, deref s.mtx with
   | .error e, _ => .error e
   | _, .error e => .error e
   | .ok _, .ok _ =>
+    let h := { h with mem := h.mem + 1, fds := h.fds + 1 }
     match ncInsert f s.queue h with
     | .error e => .error e
-    | .ok (qu, ok, h) => .ok ({ s with queue := qu }, ok, h)
+    | .ok (qu, true, h) => .ok ({ s with queue := qu }, true, h)
+    | .ok (qu, false, h) => .ok ({ s with queue := qu }, false, { h with mem := h.mem - 1, fds := h.fds - 1 })
 
 /-! ## net/socket_evloop_pipe.c, net/socket.c -/
 
